@@ -353,6 +353,12 @@ structure S2 where
 def TUNABLE2 : List String :=
   ["Dense", "Conv1D", "Conv2D", "Conv2DTranspose", "SeparableConv1D", "SeparableConv2D"]
 
+/-- `self.layer_indexes is not None and layer_id not in self.layer_indexes` -/
+def excludedB (tn : Tune) (i : Nat) : Bool :=
+  match tn.layerIndexes with
+  | some ix => decide (i ∉ ix)
+  | none => false
+
 /-- one iteration of `for layer_id, layer in enumerate(model.layers)` (lines 387-554);
     `nf` = `network_filters`, `s1` = what the first loop left behind.
     Not modelled: `fanin` (unused by the caller) and the `target_shape` edit of a `Reshape`
@@ -360,7 +366,7 @@ def TUNABLE2 : List String :=
 def loop2Step (env : Env) (tn : Tune) (nf : Rat) (s1 : S1) (i : Nat) (s : S2) (L : Layer) :
     Except Err S2 :=
   let skip : S2 := { s with arch := s.arch ++ [L] }
-  if (match tn.layerIndexes with | some ix => decide (i ∉ ix) | none => false) then .ok skip
+  if excludedB tn i then .ok skip
   else if L.cls ∈ REGISTERED then
     match alookup L.name s1.kdict with
     | none => .error .keyError
